@@ -120,7 +120,7 @@ func c12Monitor(o *c12Obs) (fails []Failure, timing map[string]bool) {
 	}
 	if o.ReturnedT < 0 {
 		what := "tars.Run (shutdown by signal)"
-		if scn.Signal == "DIRECT" {
+		if scn.Signal == "DIRECT" || scn.Signal == "EARLY" {
 			what = "TarsServer.Shutdown(ctx)"
 		}
 		add("shutdown/never-returns", fmt.Sprintf("%s had not returned %d ms after the end of its grace period / context of %d ms", what, 6000, scn.GraceMs), false)
@@ -436,6 +436,12 @@ func c12Gen(tier string, rng *rand.Rand) []c12Case {
 			add(c12Scn{Pool: pool, Conns: []c12ConnScn{{Pre: []int{50, 50, 50, 50, 50}, Pipelined: true}, {Pre: []int{50, 50, 50}}, {Pre: []int{300}, Post: []int{0, 0, 0}, PostDelayMs: 50}}})
 		}
 	}
+	// a connection accepted at the very start of shutdown (after isClosed = 1, before the accept loop leaves), no other
+	// connection open: its requests are read and must be executed and answered, with and without a pool
+	for _, pool := range []int{0, 1, 2, 4} {
+		add(c12Scn{Pool: pool, Signal: "EARLY", Conns: []c12ConnScn{{Pre: []int{[]int{300, 50, 0, 300}[pool%4]}}}})
+	}
+	add(c12Scn{Pool: 2, Signal: "EARLY", Conns: []c12ConnScn{{Pre: []int{50, 300, 0}, Pipelined: true}}})
 	add(crowd(0, 21, 3, "TERM"))
 	add(crowd(0, 10, 2, "DIRECT"))
 	add(crowd(8, 14, 4, "INT"))
@@ -458,6 +464,15 @@ func c12Gen(tier string, rng *rand.Rand) []c12Case {
 			s.SmallBuf = true
 			s.Conns = []c12ConnScn{{Pre: []int{durs[rng.Intn(len(durs))]}, Bulk: 4 << 20, ReadDelayMs: []int{300, 1200}[rng.Intn(2)]}}
 			add(s)
+			continue
+		}
+		if rng.Intn(12) == 0 {
+			// one connection accepted at the very start of shutdown, nothing else open
+			var pre []int
+			for j := 1 + rng.Intn(4); j > 0; j-- {
+				pre = append(pre, durs[rng.Intn(len(durs))])
+			}
+			add(c12Scn{Pool: rng.Intn(5), Signal: "EARLY", Conns: []c12ConnScn{{Pre: pre, Pipelined: rng.Intn(2) == 0}}})
 			continue
 		}
 		if rng.Intn(10) == 0 {
